@@ -251,6 +251,19 @@ ECONST_CLASSES = {
 }
 
 
+CLEN_PARTS = {'C01': ('sincos',), 'C02': ('sincos',), 'C03': ('sincos', 'dst'), 'C08': ('sincos',),
+              'C09': ('aux', 'dst'), 'C15': ('aux',), 'C12': ('sincos',)}
+
+
+def _clen(ctx, prop):
+    from .rules import clenshaw
+    if prop not in CLEN_PARTS:
+        return []
+    r, n = clenshaw.rule_CLEN(ctx, CLEN_PARTS[prop])
+    r.floor('summation x length cases', n, 15)
+    return [r]
+
+
 def _symm(ctx, prop):
     from .rules import symmetry
     out = []
@@ -536,6 +549,7 @@ def run(prop, tier):
     results = CHECKS[prop](ctx)
     results += _econst(ctx, prop)
     results += _symm(ctx, prop)
+    results += _clen(ctx, prop)
     results += _lint(ctx, prop)
     rules = sorted({ALIAS.get(r.rule, r.rule) for r in results})
     _extra[prop] = {'positive_controls': controls.run_controls(rules)}
